@@ -35,7 +35,7 @@ def prelude(conn):
     ]
 
 
-MSG_KINDS = {'1': ['motion', 'button', 'commit', 'create', 'destroy'], '2': ['motion', 'commit']}
+MSG_KINDS = {'1': ['motion', 'button', 'commit', 'create', 'destroy', 'orphan'], '2': ['motion', 'commit', 'orphan']}
 
 
 def message_for(conn, kind, created):
@@ -52,6 +52,8 @@ def message_for(conn, kind, created):
     if kind == 'destroy':
         created.pop()
         return _u(conn, False, 'wl_display', 1, 'delete_id', [['int', 20]])
+    if kind == 'orphan':      # a message on an id the log never showed being created (stays unresolved)
+        return _u(conn, True, 'zz_q', 77, 'foo', [])
     raise ValueError(kind)
 
 
@@ -172,7 +174,7 @@ def run(run, tier, seed):
         run.add_part('unmerged:' + init, res)
         res = explore.bfs(make_expand(init), d_me, seed=seed, merge=True, bound={'initial_filter': init, 'depth': d_me, 'merged': True})
         run.add_part('merged:' + init, res)
-    run.rule = ('BFS over histories of 7 message events (2 connections; matching / non-matching / creating / destroying) and '
+    run.rule = ('BFS over histories of 9 message events (2 connections; matching / non-matching / creating / destroying) and '
                 '6 commands from 4 initial filters; unmerged = every history to the depth (every change point); merged on '
                 '(printed filter, selection, object state); non-trivial = at least one command and one message')
     run.bound = {'unmerged_depth': d_un, 'merged_depth': d_me, 'initial_filters': INITIAL}
